@@ -217,21 +217,21 @@ def LRU.abs (c : LRU) : Simple := ⟨c.size, c.evictList.map Elem.kv⟩
 /-! ### histories -/
 
 /-- what a caller sees of one call: the return value and the callback invocations -/
-abbrev Obs := Out × Cb
+abbrev CallObs := Out × Cb
 
 def finalState {σ : Type} (step : σ → Op → σ × Out × Cb) : σ → List Op → σ
   | s, [] => s
   | s, op :: ops => finalState step (step s op).1 ops
 
-def trace {σ : Type} (step : σ → Op → σ × Out × Cb) : σ → List Op → List Obs
+def trace {σ : Type} (step : σ → Op → σ × Out × Cb) : σ → List Op → List CallObs
   | _, [] => []
   | s, op :: ops => (step s op).2 :: trace step (step s op).1 ops
 
 /-- equal return value; equal callback invocations in the same order — except for `Purge`, where Go's map iteration
     order is unspecified: there the same pairs, in some order -/
-def ObsEq (a b : Obs) : Prop := a.1 = b.1 ∧ (if a.1 = Out.purged then a.2.Perm b.2 else a.2 = b.2)
+def ObsEq (a b : CallObs) : Prop := a.1 = b.1 ∧ (if a.1 = Out.purged then a.2.Perm b.2 else a.2 = b.2)
 
-def TraceEq : List Obs → List Obs → Prop
+def TraceEq : List CallObs → List CallObs → Prop
   | [], [] => True
   | a :: as, b :: bs => ObsEq a b ∧ TraceEq as bs
   | _, _ => False
@@ -940,7 +940,7 @@ theorem purge_refines (c : LRU) (h : Inv c) :
 
 /-! ## 6. Refinement -/
 
-theorem obsEq_of_eq {a b : Obs} (h1 : a.1 = b.1) (h2 : a.2 = b.2) : ObsEq a b := by
+theorem obsEq_of_eq {a b : CallObs} (h1 : a.1 = b.1) (h2 : a.2 = b.2) : ObsEq a b := by
   refine ⟨h1, ?_⟩
   split
   · rw [h2]
@@ -984,7 +984,7 @@ theorem step_refines (c : LRU) (op : Op) (h : Inv c) :
     show Out.okEvicted _ _ = Out.okEvicted _ _
     rw [h3, h4]
 
-theorem sim_run (ops : List Op) : ∀ c : LRU, Inv c →
+theorem lib_sim_run (ops : List Op) : ∀ c : LRU, Inv c →
     TraceEq (trace LRU.step c ops) (trace plainStep c.abs ops) ∧
     (finalState LRU.step c ops).abs = finalState plainStep c.abs ops ∧ Inv (finalState LRU.step c ops) := by
   induction ops with
@@ -1006,12 +1006,12 @@ theorem lib_refines_plain_model (size : Nat) (hs : 0 < size) (ops : List Op) :
     TraceEq (trace LRU.step (LRU.new size) ops) (trace plainStep ⟨size, []⟩ ops) ∧
     (finalState LRU.step (LRU.new size) ops).abs = finalState plainStep ⟨size, []⟩ ops ∧
     Inv (finalState LRU.step (LRU.new size) ops) :=
-  sim_run ops (LRU.new size) (Inv.new size hs)
+  lib_sim_run ops (LRU.new size) (Inv.new size hs)
 
 theorem step_out_purged (c : LRU) (op : Op) : (c.step op).2.1 = Out.purged ↔ op = Op.purge := by
   cases op <;> simp [LRU.step]
 
-theorem sim_run_eq (ops : List Op) (hp : ∀ op ∈ ops, op ≠ Op.purge) : ∀ c : LRU, Inv c →
+theorem lib_sim_run_eq (ops : List Op) (hp : ∀ op ∈ ops, op ≠ Op.purge) : ∀ c : LRU, Inv c →
     trace LRU.step c ops = trace plainStep c.abs ops := by
   induction ops with
   | nil => intro c _; rfl
@@ -1028,7 +1028,7 @@ theorem sim_run_eq (ops : List Op) (hp : ∀ op ∈ ops, op ≠ Op.purge) : ∀ 
 /-- without `Purge` in the history the two traces are EQUAL -/
 theorem lib_refines_plain_model_eq (size : Nat) (hs : 0 < size) (ops : List Op) (hp : ∀ op ∈ ops, op ≠ Op.purge) :
     trace LRU.step (LRU.new size) ops = trace plainStep ⟨size, []⟩ ops :=
-  sim_run_eq ops hp (LRU.new size) (Inv.new size hs)
+  lib_sim_run_eq ops hp (LRU.new size) (Inv.new size hs)
 
 /-! ## 7. The invariant in the words of the library, and its preservation -/
 
@@ -1350,5 +1350,175 @@ theorem lib_containsOrAdd (c : LRU) (k v : Bytes) (h : Inv c) :
     rw [hc] at hflag
     rw [hcoa]
     exact ⟨rfl, (fun hf => by cases hf), fun _ => ⟨rfl, rfl, r1, r2, (by rw [hflag]; rfl)⟩⟩
+
+/-- `Remove` reports whether the key was resident; a resident key is unlinked, nothing else moves, AND THE EVICTION
+    CALLBACK IS INVOKED with the removed pair (`removeElement` does not distinguish an eviction from a removal) -/
+theorem lib_remove (c : LRU) (k : Bytes) (h : Inv c) :
+    (c.remove k).2.1 = c.contains k ∧
+    (c.contains k = false → c.remove k = (c, false, [])) ∧
+    (c.contains k = true → ∃ v, c.peek k = some v ∧ (c.remove k).2.2 = [(k, v)] ∧
+        (c.remove k).1.contains k = false ∧ (c.remove k).1.keys = c.keys.filter (· != k)) := by
+  cases hl : alookup k c.items with
+  | none =>
+    have hc : c.contains k = false := by rw [LRU.contains, hl]; rfl
+    have hrm : c.remove k = (c, false, []) := by simp only [LRU.remove, hl]
+    rw [hrm, hc]
+    exact ⟨rfl, fun _ => rfl, fun hf => by cases hf⟩
+  | some id =>
+    have hc : c.contains k = true := by rw [LRU.contains, hl]; rfl
+    obtain ⟨e, he, hek, _, _, hd⟩ := h.core.resolve hl
+    obtain ⟨_, _, _, hpk, _, _⟩ := present_case h [] hl
+    subst hek
+    have hrm : c.remove e.key = ((c.removeElement e).1, true, (c.removeElement e).2) := by
+      simp only [LRU.remove, hl, hd]
+    obtain ⟨_, hev, _⟩ := h.core.removeElement he
+    have hi := inv_remove c e.key h
+    rw [hrm] at hi ⊢
+    rw [hc]
+    refine ⟨rfl, (fun hf => by cases hf), fun _ => ⟨_, hpk, ?_, ?_, ?_⟩⟩
+    · obtain ⟨e', _, hek', _, _, hd'⟩ := h.core.resolve hl
+      rw [hd] at hd'
+      cases hd'
+      rfl
+    · rw [contains_eq_find hi]
+      show ((c.removeElement e).1.evictList.find? (·.key == e.key)).isSome = false
+      rw [hev, find_filter_key, if_pos rfl]
+      rfl
+    · show (c.removeElement e).1.evictList.reverse.map (·.key) = _
+      rw [hev]
+      simp only [LRU.keys, List.filter_map, List.filter_reverse]
+      rfl
+
+/-! ## 9. Closing the chain of C15: the library model under the `lruCache` wrapper refines the reference LRU
+
+`SV/LRU/RefSpec.lean` proves `Simple.stepL` (the hand model under the wrapper's `Put`/`HasOrAdd`/`Get`/`Peek`/`Has`/
+`Remove`/`Clear`) equal to the independent reference `Ref`.  Here the same wrapper is put on the library model; by the step
+lemmas above it yields the hand model's outputs, hence the reference's. -/
+
+/-- `lruCache` → `simpleLRUCacheAdapter` → `lru.Cache` → `simplelru.LRU`: `Put` is `Add` (size dropped); `HasOrAdd` is
+    `ContainsOrAdd` followed, when not found, by `added = Contains(key)`; `Remove` drops the flag; `Clear` is `Purge` -/
+def LRU.stepL (c : LRU) : LOp → LRU × LOut
+  | .put k v _ => ((c.add k v).1, .evicted (c.add k v).2.1)
+  | .hoa k v _ =>
+    ((c.containsOrAdd k v).1,
+     if (c.containsOrAdd k v).2.1 then .hasAdded true false
+     else .hasAdded false ((c.containsOrAdd k v).1.contains k))
+  | .get k => ((c.get k).1, .value (c.get k).2)
+  | .peek k => (c, .value (c.peek k))
+  | .has k => (c, .present (c.contains k))
+  | .rm k => ((c.remove k).1, .done)
+  | .clear => (c.purge.1, .done)
+
+/-- `Keys()`, the values in the same order, `SizeInBytesContained()` (the adapter returns 0), `Len()` -/
+def LRU.obsL (c : LRU) : SV.LRU.Obs := ⟨c.keys, c.evictList.reverse.map (·.val), 0, c.len⟩
+
+theorem obsL_eq (c : LRU) : c.obsL = c.abs.obs := by
+  show (⟨c.keys, c.evictList.reverse.map (·.val), 0, c.len⟩ : SV.LRU.Obs)
+    = ⟨c.abs.keys, (c.evictList.map Elem.kv).reverse.map (·.2), 0, (c.evictList.map Elem.kv).length⟩
+  rw [keys_refines, ← List.map_reverse, List.map_map, List.length_map]
+  rfl
+
+theorem stepL_refines (c : LRU) (op : LOp) (h : Inv c) :
+    Inv (c.stepL op).1 ∧ (c.stepL op).1.abs = (c.abs.stepL op).1 ∧ (c.stepL op).2 = (c.abs.stepL op).2 := by
+  cases op with
+  | put k v sz =>
+    obtain ⟨h1, h2, h3, _⟩ := add_refines c k v h
+    exact ⟨h1, h2, congrArg LOut.evicted h3⟩
+  | hoa k v sz =>
+    obtain ⟨c1, c2, c3⟩ := lib_containsOrAdd c k v h
+    have hh := abs_has h.core k
+    cases hc : c.contains k with
+    | true =>
+      rw [hc] at hh
+      have := c2 hc
+      simp only [LRU.stepL, Simple.stepL, this, Simple.containsOrAdd, hh, if_true]
+      exact ⟨h, trivial, trivial⟩
+    | false =>
+      rw [hc] at hh
+      obtain ⟨d1, _, d3, _, _⟩ := c3 hc
+      obtain ⟨h1, h2, _, _⟩ := add_refines c k v h
+      rw [hc] at c1
+      simp only [LRU.stepL, Simple.stepL, c1, d3, Simple.containsOrAdd, hh, Bool.false_eq_true, if_false]
+      rw [d1]
+      exact ⟨h1, h2, trivial⟩
+  | get k =>
+    obtain ⟨h1, h2, h3, _⟩ := get_refines c k h
+    exact ⟨h1, h2, congrArg LOut.value h3⟩
+  | peek k => exact ⟨h, rfl, congrArg LOut.value (peek_refines c k h)⟩
+  | has k => exact ⟨h, rfl, congrArg LOut.present (abs_has h.core k).symm⟩
+  | rm k =>
+    obtain ⟨h1, h2, _, _⟩ := remove_refines c k h
+    exact ⟨h1, h2, rfl⟩
+  | clear =>
+    obtain ⟨h1, h2, _⟩ := purge_refines c h
+    exact ⟨h1, h2, rfl⟩
+
+/-- C15 without the assumption on hashicorp's library: for every capacity ≥ 1 and every history of the wrapper's
+    operations, the LIBRARY model (list + pointer map) produces the reference LRU's outputs and observations
+    (`Keys` in order, values, `Len`) at every step -/
+theorem lib_refines_reference (cap : Nat) (hc : 1 ≤ cap) (ops : List LOp) :
+    SV.LRU.runTrace LRU.stepL LRU.obsL (LRU.new cap) ops
+      = SV.LRU.runTrace Ref.step Ref.obs (Ref.init cap none) ops ∧
+    (SV.LRU.runFinal LRU.stepL (LRU.new cap) ops).abs.toRef = SV.LRU.runFinal Ref.step (Ref.init cap none) ops ∧
+    Inv (SV.LRU.runFinal LRU.stepL (LRU.new cap) ops) :=
+  SV.LRU.sim_run LRU.stepL LRU.obsL Inv (fun c => c.abs.toRef)
+    (fun c op h => by
+      obtain ⟨h1, h2, h3⟩ := stepL_refines c op h
+      obtain ⟨_, g2, g3⟩ := Simple.step_refines c.abs op (abs_inv h) h.sizePos
+      exact ⟨h1, by rw [h2]; exact g2, by rw [h3]; exact g3⟩)
+    (fun c _ => by rw [obsL_eq]; exact Simple.obs_eq c.abs)
+    ops (LRU.new cap) (Inv.new cap hc)
+
+/-! ## 10. Non-vacuity: size 2, six operations with a refresh, an eviction, an overwrite and an evicting `ContainsOrAdd` -/
+
+/-- the hypotheses of the main theorem can be met -/
+example : Inv (LRU.new 2) := Inv.new 2 (by decide)
+
+/-- what the library model does on `demo`: step 3 (`Get 1`) refreshes key 1, so step 4 evicts key 2 and the callback
+    sees `(2, 20)`; step 5 overwrites key 1 without evicting; step 6 (`ContainsOrAdd 4`) evicts key 3 -/
+example : trace LRU.step (LRU.new 2) demo =
+    [ (.evicted false, []), (.evicted false, []), (.value (some [10]), []), (.evicted true, [([2], [20])]),
+      (.evicted false, []), (.okEvicted false true, [([3], [30])]) ] := by decide
+
+/-- and the hand model says the same, step by step -/
+example : trace LRU.step (LRU.new 2) demo = trace plainStep ⟨2, []⟩ demo := by decide
+
+example : (finalState LRU.step (LRU.new 2) demo).abs = finalState plainStep ⟨2, []⟩ demo := rfl
+
+/-- the concrete final state: two linked elements, two map entries pointing at them, ids not reused -/
+example : (finalState LRU.step (LRU.new 2) demo).evictList = [⟨3, [4], [40]⟩, ⟨0, [1], [11]⟩] ∧
+    (finalState LRU.step (LRU.new 2) demo).items = [([1], 0), ([4], 3)] ∧
+    (finalState LRU.step (LRU.new 2) demo).keys = [[1], [4]] := by decide
+
+/-- the state after `Add 1, Add 2, Get 1` (full, key 2 least recently used) -/
+def demoFull : LRU := finalState LRU.step (LRU.new 2) (demo.take 3)
+
+theorem demoFull_inv : Inv demoFull := (lib_refines_plain_model 2 (by decide) (demo.take 3)).2.2
+
+/-- `lib_add_evicts_lru`, evicting instance: key new, cache full → flag, callback = least recently used entry -/
+example : (demoFull.add [3] [30]).2 = (true, [([2], [20])]) ∧ demoFull.keys = [[2], [1]] ∧
+    (demoFull.add [3] [30]).1.keys = [[1], [3]] := by decide
+
+/-- `lib_add_present`, instance: the hypothesis `contains` holds, no eviction, refreshed and overwritten -/
+example : demoFull.contains [2] = true ∧ (demoFull.add [2] [21]).2 = (false, []) ∧
+    (demoFull.add [2] [21]).1.keys = [[1], [2]] ∧ (demoFull.add [2] [21]).1.peek [2] = some [21] := by decide
+
+/-- `lib_get_contains_peek`, instances: `Peek`/`Contains` do not protect key 2 from eviction, `Get` does -/
+example : demoFull.peek [2] = some [20] ∧ ((demoFull.get [2]).1.add [3] [30]).2.2 = [([1], [10])] ∧
+    (demoFull.add [3] [30]).2.2 = [([2], [20])] := by decide
+
+/-- `lib_containsOrAdd`, both branches -/
+example : demoFull.containsOrAdd [1] [99] = (demoFull, true, false, []) ∧
+    (demoFull.containsOrAdd [3] [30]).2 = (false, true, [([2], [20])]) := by
+  refine ⟨rfl, by decide⟩
+
+/-- why `Purge` is compared up to the order of the callbacks: the library walks the MAP (here: insertion order `1, 2`,
+    in Go: unspecified), the recency order is `2, 1` -/
+example : (demoFull.step .purge).2 = (.purged, [([1], [10]), ([2], [20])]) ∧
+    (plainStep demoFull.abs .purge).2 = (.purged, [([2], [20]), ([1], [10])]) := by decide
+
+/-- the wrapper-level chain on a concrete history (the plain-cache demo of RefSpec) -/
+example : SV.LRU.runTrace LRU.stepL LRU.obsL (LRU.new 2) demoPlain
+    = SV.LRU.runTrace Ref.step Ref.obs (Ref.init 2 none) demoPlain := by decide
 
 end SV.LRU.Lib
